@@ -389,6 +389,24 @@ class WalletGen:
         return self.finish(blocks, "padded", note="%s %s%s" % (pool, split, " after %d" % extra_block if extra_block else ""))
 
 
+    def big_tx(self, pool, n, small_before):
+        """One transaction that alone holds n > threshold outputs of `pool`, the wallet's at the indices
+        0, 99, 100, 101, 199, 200, n-1 and at (i mod 100) of each of those (so that an index taken modulo
+        the batching threshold would collide with another wallet output of a different account / scope),
+        optionally preceded in the same block by a small transaction (the accumulating batch is then not
+        empty when the large one arrives)."""
+        avail = [dict(x) for x in self.unspent]
+        owners_cycle = ["a1e", "a2e", "a1i", "a2i"]
+        marks = {i for i in (0, 99, 100, 101, 199, 200, n - 1) if i < n}
+        marks |= {i % 100 for i in marks}
+        owners = [owners_cycle[(i // 100 + i) % 4] if i in marks else "f" for i in range(n)]
+        txs = []
+        if small_before:
+            txs.append(self.tx(1, {pool: (["f", "a2e", "f"][:small_before], 0, 0)}, avail))
+        txs.append(self.tx(len(txs) + 1, {pool: (owners, 1, 0)}, avail))
+        return self.finish([self.block(1, txs, "ok")], "bigtx", note="%s one tx of %d%s" % (pool, n, " after a tx of %d" % small_before if small_before else ""))
+
+
 def wallet_scenarios(ctx, rng):
     g = WalletGen(rng)
     q = ctx.quick()
@@ -419,6 +437,13 @@ def wallet_scenarios(ctx, rng):
             pads.append(("padded", pool, [33, 33, 33, 1, 1], {0, 32, 33, 98, 99, 100}, None))
             pads.append(("padded", pool, [101], {0, 99, 100}, 99))
     plan += pads
+    # a single transaction beyond the batching threshold, in every pool
+    for j, pool in enumerate(POOLS):
+        for i, n in enumerate([101, 150, 250]):
+            plan.append(("bigtx", pool, n, [0, 3, 1][(i + j + ctx.seed) % 3]))
+        if not q:
+            plan.append(("bigtx", pool, 201, 2))
+            plan.append(("bigtx", pool, 300, 0))
     plan += [("valid", rng.randint(1, 3)) for _ in range(10 if q else 40)]
     rng.shuffle(plan)
     for item in plan:
@@ -426,6 +451,8 @@ def wallet_scenarios(ctx, rng):
             g.corrupt_range(item[1], item[2], item[3])
         elif item[0] == "padded":
             g.padded(item[1], item[2], item[3], item[4])
+        elif item[0] == "bigtx":
+            g.big_tx(item[1], item[2], item[3])
         else:
             g.valid_range(item[1], rich=True)
     g.valid_range(2, rich=True)
@@ -723,7 +750,7 @@ def run(ctx):
     for s in scenarios:
         wkinds[s["what"]] = wkinds.get(s["what"], 0) + 1
     hdr_missing = [k for k in HEADER_KINDS if k not in tally.hdr or not wkinds.get("corrupt:hdr:" + k)]
-    if missing or hdr_missing or not tally.changes or not tally.internal or not wkinds.get("padded") or not wkinds.get("valid") \
+    if missing or hdr_missing or not tally.changes or not tally.internal or not wkinds.get("padded") or wkinds.get("bigtx", 0) < 9 or not wkinds.get("valid") \
             or tally.ex_ok is None or tally.ex_bad is None:
         raise lib.ToolError("vacuity: classes %s change=%d internal=%d header kinds %s wallet kinds %s"
                             % (tally.classes, tally.changes, tally.internal, sorted(tally.hdr), wkinds))
